@@ -1082,3 +1082,45 @@ Qed.
 Lemma confirmed_resolves known :
   exists ns a, transition CConfirmed FUnconfirmed known = Some (ns, a) /\ (ns = FConfirmed \/ ns = FMissing).
 Proof. destruct known; cbn; eauto. Qed.
+
+(* ------------------------------------------------------------------------------------------ *)
+(* Statements in the form used by props/C05.v                                                  *)
+(* ------------------------------------------------------------------------------------------ *)
+Lemma source_structure :
+  schema_before_first_transaction = true /\
+  cleanup_sequence = [1; 2; 3] /\ revert_optional_transactions = 1 /\
+  removal_outside_transaction = true /\ removal_clears_queue = true /\ queue_in_memory_only = true /\
+  execute_job_sequence = [1; 2; 3; 4] /\
+  reset_interrupted_updates = [(24, 22); (21, 25)] /\ reset_interrupted_failed_loop = true /\
+  rescan_unconfirmed_cause = cause_code CConfirmed /\
+  serve_sequence = [1; 2; 3; 4; 5].
+Proof. repeat split; reflexivity. Qed.
+
+Lemma open_point_zero_now cap ops strict :
+  open_db_now strict cap (db_at cap ops 0) =
+  if open_creates_missing_root then Ok (init_st cap) else Internal 300.
+Proof. apply open_point_zero. Qed.
+
+Lemma open_point_zero_refuted cap ops strict :
+  exists t, open_db false strict cap (db_at cap ops 0) = Internal t.
+Proof. exists 300. reflexivity. Qed.
+
+Lemma started_kept_by_state_only o s s' l :
+  match o with OpDispatch _ | OpValidatePending _ | OpMarkStepPending _ | OpHold _ | OpRelease _ => True
+             | _ => False end ->
+  step_op o s = Ok s' -> has_hash l s = false -> built_products l s = [] ->
+  has_hash l s' = false /\ built_products l s' = [].
+Proof. intros Hk H. apply started_kept_by_frame. eapply state_only_ops_frame; eassumption. Qed.
+
+Lemma crash_no_orphans_partial :
+  (forall opt x, no_orphans_at W0 opt x) /\
+  (forall opt s s' q, revert_optional opt s = Ok (s', q) ->
+     forall e, In e q -> exists r, In r (files s) /\ fl r = fst e /\
+       (fstt r = FVolatile \/ fstt r = FBuilt \/ fstt r = FOutdated) /\
+       existsb (fun l => mem_str (fl r) (file_sinks_of_step l s)) opt = true) /\
+  (forall s s' q, delete_detached_q s = Ok (s', q) ->
+     forall e, In e q -> exists r, In r (files s) /\ fl r = fst e /\
+       (fstt r = FVolatile \/ fstt r = FBuilt \/ fstt r = FOutdated) /\ find_file (fl r) s' = None).
+Proof.
+  split; [exact crash_no_orphans_W0|]. split; [exact revert_queue_recorded | exact dd_queue_recorded].
+Qed.
